@@ -8,31 +8,31 @@ HERE = os.path.dirname(os.path.dirname(os.path.abspath(__file__)))
 # property -> (technique, level text, level note)   -- only properties with a rule module are emitted
 CLAIMED = {
  "C12": ("literal-table extraction and comparison (twin tables, codon-keyed NCBI oracle, complement closure), truth-table comparison of extracted option guards, keyword pass-through parity",
-         "Static: decides the data clauses exhaustively (27 code tables x 2 modules against each other and the NCBI table; 4 complement tables closed; codon order TCAG) and, for the option clauses, that every translation entry point reads its options, that sibling entry points trim terminal stops under the same condition on the full truth table, that collection wrappers forward the options and give the requested genetic code to every entry point they call, that every complement implementation goes through the complement table, that index arrays are typed by the alphabet size, that no translation entry point reads the raw (uncomplemented) view, that no cache of the moltype / code / alphabet classes is a shared class attribute, and that the new translate() chooses its start/truncation slices by strand (known finding). The byte/str translation code itself is not decided.",
+         "Static: decides the data clauses exhaustively (27 code tables x 2 modules against each other and the NCBI table; 4 complement tables closed; codon order TCAG) and, for the option clauses, that every translation entry point reads its options, that sibling entry points trim terminal stops under the same condition on the full truth table, that collection wrappers forward the options and give the requested genetic code to every entry point they call, that every complement implementation goes through the complement table, that index arrays are typed by the alphabet size, that no translation entry point reads the raw (uncomplemented) view, that no cache of the moltype / code / alphabet classes is a shared class attribute, that the new translate() chooses its start/truncation slices by strand (known finding), and that the byte converter fixes the element width of index arrays. The byte/str translation code itself is not decided.",
          "Trusts python ast, the constant folder, the embedded NCBI deviations table and that k-mer alphabets enumerate the product of monomers in order."),
  "C17": ("constant propagation through the WHERE builder + exhaustive enumeration of order types; SQL column-set agreement; constant-offset domain along def-use chains",
-         "Static: the interval predicate text the code assembles is extracted by constant propagation, parsed, and compared with half-open overlap / containment on every weak ordering of the integers involved (exhaustive), for every kind of accompanying condition (also decides that the assembled WHERE is well formed); every SQL builder takes its WHERE from that one function with the flags forwarded; attribute conditions use the exact = operator; spans are never written without start/stop; GFF and GenBank coordinates reach the store with net offsets (-1, 0); the counter of made-up record names is threaded through the chunked GFF reader and across files; identifiers already stored leave a block before it is added; the GFF ID/Parent patterns are anchored and case-sensitive; the table loop does not edit its forwarded conditions in place; raw-connection inserts are committed. Equality with a linear scan over arbitrary record sets, and union/copy/pickle multiset preservation, are not decided.",
+         "Static: the interval predicate text the code assembles is extracted by constant propagation, parsed, and compared with half-open overlap / containment on every weak ordering of the integers involved (exhaustive), for every kind of accompanying condition (also decides that the assembled WHERE is well formed); every SQL builder takes its WHERE from that one function with the flags forwarded; attribute conditions use the exact = operator; spans are never written without start/stop; GFF and GenBank coordinates reach the store with net offsets (-1, 0); the counter of made-up record names is threaded through the chunked GFF reader and across files; identifiers already stored leave a block before it is added; the GFF ID/Parent patterns are anchored and case-sensitive; the table loop does not edit its forwarded conditions in place; raw-connection inserts are committed; union() is not built on the receiver's connection. Equality with a linear scan over arbitrary record sets, and union/copy/pickle multiset preservation, are not decided.",
          "Trusts python ast, the mini constant propagator (anything it cannot fold is reported unresolved), SQLite integer comparison semantics; features and windows are assumed non-empty."),
  "C19": ("typestate over the extracted file-system effect sequence of the commit function; post-dominance with exceptional edges on a statement CFG; who-may-open rule; dominance of the resume skip",
-         "Static: every kill point of atomic_write's commit is a prefix of its extracted effect sequence, and after each prefix the destination is old or new (never absent); no writer's exception handler deletes the destination; every atomic_write is released on all paths including exceptional ones, and __exit__ commits only on success and cleans up on failure; writers never open the destination directly; the temporary directory is removed on every exceptional path out of the close and the commit too; apply_to's skip of completed inputs dominates scheduling and rests on an exact store-membership test and on an overwrite check made on the caller's identifier. Not decided: behaviour of the OS, the zip commit, that a resumed run ends with an identical store.",
+         "Static: every kill point of atomic_write's commit is a prefix of its extracted effect sequence, and after each prefix the destination is old or new (never absent); no writer's exception handler deletes the destination; every atomic_write is released on all paths including exceptional ones, and __exit__ commits only on success and cleans up on failure; writers never open the destination directly; the commit is a rename/replace (shutil.move and copies are not atomic); the temporary directory is removed on every exceptional path out of the close and the commit too; apply_to's skip of completed inputs dominates scheduling and rests on an exact store-membership test and on an overwrite check made on the caller's identifier. Not decided: behaviour of the OS, the zip commit, that a resumed run ends with an identical store.",
          "Trusts python ast, the CFG construction (exception edge from every statement containing a call), POSIX atomic rename/replace."),
  "C13": ("dominance of a mode check over every file-system mutation on a statement CFG with self-calls inlined; identifier taint (def-use) against exact/anchored matching idioms; SQL sibling column agreement",
-         "Static: every file-system mutation reachable from a public DataStoreDirectory method is dominated by a READONLY check (the SQLite store by its typed read-only handle); identifiers are only matched exactly or by anchored forms; a completed write retires the not-completed record of the same identifier on every path; the UPDATE and INSERT (or upsert) branches persist the same columns; _check_writable refuses READONLY writes and APPEND overwrites and precedes every storage write; an accepted write always reaches the storage; no helper unlinks in a table after another wrote there in the same operation; both SQLite member lists are adjusted by each write; helpers testing a mode parameter receive the normalised Mode; the store suffix is matched with its dot; the checksum file's path covers the data path's parameters (known finding). Equality with a dictionary model over arbitrary histories is not decided.",
+         "Static: every file-system mutation reachable from a public DataStoreDirectory method is dominated by a READONLY check (the SQLite store by its typed read-only handle); identifiers are only matched exactly or by anchored forms; a completed write retires the not-completed record of the same identifier on every path; the UPDATE and INSERT (or upsert) branches persist the same columns; _check_writable refuses READONLY writes and APPEND overwrites and precedes every storage write; an accepted write always reaches the storage; no helper unlinks in a table after another wrote there in the same operation; both SQLite member lists are adjusted by each write; helpers testing a mode parameter receive the normalised Mode; the store suffix is matched with its dot; an override of __contains__ asks the base class one question; writes append to the lazy member lists only after those were loaded; the checksum file's path covers the data path's parameters (known finding). Equality with a dictionary model over arbitrary histories is not decided.",
          "Trusts python ast, CFG/dominators, the resolver for self./super() calls (depth 3), sqlite mode=ro."),
  "C14": ("def-use of the result/source association, structural one-submit/one-yield rule, dominance and try-containment on a statement CFG, sibling writer routing",
-         "Static: schedules are decided structurally by showing the result<->source association never depends on order (the proxy object itself is returned and the identifier is derived from the completed value; no positional pairing), one submission per input and one yield per future, a cardinality-preserving input pipeline, failures converted to records on every path of _call, every writer routing NotCompleted by kind (isinstance, not truthiness) under the same identifier, function-apps handing their constructor arguments on as deep copies, and the writer call of apply_to being guarded (known finding). Content equality with a solo call and behaviour of the executors are not decided.",
+         "Static: schedules are decided structurally by showing the result<->source association never depends on order (the proxy object itself is returned and the identifier is derived from the completed value; no positional pairing), one submission per input and one yield per future, a cardinality-preserving input pipeline, failures converted to records on every path of _call, every writer routing NotCompleted by kind (isinstance, not truthiness) under the same identifier, function-apps handing their constructor arguments on as deep copies, the writer call of apply_to being guarded (known finding), and the store membership behind the writers' overwrite check being exact. Content equality with a solo call and behaviour of the executors are not decided.",
          "Trusts python ast, CFG/dominators, concurrent.futures semantics (each future yielded once)."),
  "C16": ("reaching definitions and post-dominance (with exceptional edges) on a statement CFG; wrapper-chain order; positional flow of the bounds pair",
          "Static: what maximise returns is, on every path, the best point recorded by the tracker (get_best() runs in a finally, tuple positions agree), the tracker is the innermost wrapper and sees the start point and every optimiser evaluation, it updates only on improvement with a copy; bounds travel in (lower, upper) order from get_bounds_vectors to the in-bounds test and the bounds wrapper sits outside the tracker; the controller writes the calculator state of every leaf definition back in a finally; nested-model initialisation reads the projected value from the key the projection writes and the app-level initialiser selects the nested function by identifier. Exactness of the projection itself and the optimisers' internals are not decided.",
          "Trusts python ast, CFG/reaching definitions, determinism of the objective."),
  "C07": ("package-wide who-may-call over typed receivers, post-dominance of the notification on a statement CFG, finally-protection of context-manager generators, def-use sets of the undo bookkeeping",
-         "Static: definition-level mutators are called only by their owner, which notifies with the changed definition on every normal path; the propagation sweep marks clients, clears the dirty set only after the sweep and never while suspended; the dirty set is accumulated, never replaced; every state-setting context manager restores in a finally and runs its deferred work there; the calculator's undo bookkeeping is restored on the interruption path and its undo shortcut is taken only when all changes of the last step are reverted; no except-as name is read after its handler. Equality of the incremental value with a fresh calculation over all histories is not decided.",
+         "Static: definition-level mutators are called only by their owner, which notifies with the changed definition on every normal path; the propagation sweep marks clients, clears the dirty set only after the sweep and never while suspended; the dirty set is accumulated, never replaced; every state-setting context manager restores in a finally and runs its deferred work there; the calculator's undo bookkeeping is restored on the interruption path and its undo shortcut is taken only when all changes of the last step are reverted; no except-as name is read after its handler; leaf definitions answer from their primary state, not from what the deferred sweep derives. Equality of the incremental value with a fresh calculation over all histories is not decided.",
          "Trusts python ast, CFG, the receiver typing by origin (loop variables over self.defns are definitions; names pc/lf/self are controllers)."),
  "C05": ("def-use template matching on the rate-matrix construction, C3 linearisation of the model class hierarchy, literal option table, CFG path cover",
          "Static: every calcQ in the hierarchy fixes the diagonal to minus the row sums taken after all element-wise scaling and calibrates last by 1/(word_probs*row_totals).sum(); all 13 classes that declare stationarity resolve calcQ (by C3 MRO) to the implementation that scales by the motif probabilities and the 8 general ones do not; TimeReversible refuses asymmetric exchangeabilities on every path; rate-class multipliers are divided by their weighted mean; the exponentiator option table is exhaustive and exponentiators keep no state between calls; GeneralStationary uses its solved balance rate unaltered and refuses a negative one. Row-stochasticity, P(s+t)=P(s)P(t) and back-end agreement are numerical and not decided.",
          "Trusts python ast, the C3 implementation, that calc_exchangeability_matrix yields non-negative off-diagonals with zero diagonal."),
  "C06": ("writer/reader literal-table and constant agreement, idiom match for record boundaries and label derivation across sibling parsers",
-         "Static: what a one-sided edit breaks is decided -- every writable format name has a parser and aliases agree, recognised and openable compression suffixes coincide, the PHYLIP name-field width/truncation equals the parser's offset, GDE/FASTA sigils and PAML/PHYLIP headers agree with their parsers, record boundaries are line-anchored in all three FASTA parsers and they derive labels and strip whitespace alike; block-wrapping writers bound their loop by the string they wrap; the chunked line streamer carries incomplete tails; the block-format parsers never derive a label from a white-space-squeezed line (backward slice); the GenBank bytes parser trims every record piece. parse(write(x)) == x for all x is not decided.",
+         "Static: what a one-sided edit breaks is decided -- every writable format name has a parser and aliases agree, recognised and openable compression suffixes coincide, the PHYLIP name-field width/truncation equals the parser's offset, GDE/FASTA sigils and PAML/PHYLIP headers agree with their parsers, record boundaries are line-anchored in all three FASTA parsers and they derive labels and strip whitespace alike; block-wrapping writers bound their loop by the string they wrap; the chunked line streamer carries incomplete tails; the block-format parsers never derive a label from a white-space-squeezed line (backward slice); the GenBank bytes parser trims every record piece; no writer helper takes a last block by s[-tail:] with a possibly-zero tail; open_ honours an explicit encoding and does not guess the encoding of ASCII data. parse(write(x)) == x for all x is not decided.",
          "Trusts python ast and the enumerated accepted idioms (line[0] in label_char, startswith, split on newline+sigil, anchored regex)."),
  "C10": ("class-hierarchy closure against the literal/provenance keys of the deserialiser registry (substring dispatch in registration order), writer/reader key-set agreement with delegation followed, lost-effect scan of deserialisers",
          "Static: every class derived from a dispatched class that writes its own provenance is itself dispatched, ambiguous matches resolve to the most specific key first, keys are unique; the keys each deserialiser requires are written by the matching to_rich_dict and keys left for **data fit the constructor; no deserialiser rebuilds an object after applying setters; pickle state pairs agree; a view exports the segment it displays (index-space typing, R01.4) the tree JSON writer/reader conventions match (R09.4) and history-state parameters are written by to_rich_dict. Observational equality of the round trip is not decided.",
@@ -41,13 +41,13 @@ CLAIMED = {
          "Static: no method of a concrete sequence class reads the raw (reversed, uncomplemented) view without the is_reversed-guarded complement and the realisation owners keep that guard; local vs absolute (offset-including) indices are typed and only local indices subscript the view's own string; a view over a realised string receives the receiver's coordinates only under a strand test; the str/bytes/array accessors of a view realise the same slice; the 18 slice-algebra twins and 31 read-only method twins of the old and new implementation are identical after normalisation. The view arithmetic itself (all chains of slices) is integer arithmetic and not decided.",
          "Trusts python ast, the MRO resolver, the raw/safe member tables of the view classes; twin rule: a one-sided semantics-preserving rewrite that survives the normaliser would be reported."),
  "C04": ("normalised-AST twin diff, parameter-to-sink flow of the query window, callee-precondition check at constructor call sites with per-view-class summaries, offset-expression rule",
-         "Static: the translation methods present in both implementations are identical; get_features forwards its flags unchanged and converts/swaps the window ends as the database predicate (decided under C17) expects; no constructor call passes a coordinate-carrying view together with a non-zero annotation_offset, and offsets of sequences rebuilt from strings include the receiver's own offset; make_feature classifies and clips every span against [0, len) correctly on all 18 weak orderings of (start, end, 0, len) (symbolic evaluation of the loop body); the database predicate and the stored extremes (R17.1, R17.3) are re-checked here; a windowed db subset asks for partial matches; a sequence that receives the receiver's annotation db was built with the receiver's coordinates (10 known findings). That a feature denotes the same residues after any history is not decided.",
+         "Static: the translation methods present in both implementations are identical; get_features forwards its flags unchanged and converts/swaps the window ends as the database predicate (decided under C17) expects; no constructor call passes a coordinate-carrying view together with a non-zero annotation_offset, and offsets of sequences rebuilt from strings include the receiver's own offset; make_feature classifies and clips every span against [0, len) correctly on all 18 weak orderings of (start, end, 0, len) (symbolic evaluation of the loop body); the database predicate and the stored extremes (R17.1, R17.3) are re-checked here; a windowed db subset asks for partial matches; a sequence that receives the receiver's annotation db was built with the receiver's coordinates (10 known findings); a copy keeps its annotations whatever the strand; stores to properties have setters. That a feature denotes the same residues after any history is not decided.",
          "Trusts python ast, the summaries of SeqView/SeqDataView.copy, that slices of self._seq keep their coordinates."),
  "C09": ("region/effect abstract interpretation (receiver purity and result sharing) with interprocedural summaries to a two-phase least fix-point over the tree class family; regex character-class comparison of the Newick writer and tokeniser",
-         "Static: none of 36 operations documented as returning a new tree or a value (resolved for TreeNode and PhyloNode) contains a store, container mutation, property-setter effect or child adoption whose target lies exactly in the receiver's region, through calls resolved inside the class; the new trees hold no mutable dict/list/node of the receiver; every character the Newick tokeniser treats as structure makes the writer quote the name, quotes are doubled/un-doubled and blank/underscore munging is symmetric, also between the JSON writer and reader; generated node names are re-checked for uniqueness; unrooted() re-attaches the removed edge length on the kept side and leaves promoted nodes' lengths alone; no node is re-found by its own name; the midpoint climb is bounded by an ancestor test. Topology and path-length invariance in general are not decided.",
+         "Static: none of 36 operations documented as returning a new tree or a value (resolved for TreeNode and PhyloNode) contains a store, container mutation, property-setter effect or child adoption whose target lies exactly in the receiver's region, through calls resolved inside the class; the new trees hold no mutable dict/list/node of the receiver; every character the Newick tokeniser treats as structure makes the writer quote the name, quotes are doubled/un-doubled and blank/underscore munging is symmetric, also between the JSON writer and reader; generated node names are re-checked for uniqueness; unrooted() re-attaches the removed edge length on the kept side and leaves promoted nodes' lengths alone; no node is re-found by its own name; the midpoint climb is bounded by an ancestor test; subsets() recomputes its clade sets. Topology and path-length invariance in general are not decided.",
          "Trusts python ast, the effect model of containers/numpy, the tree-specific effect facts (adoption by constructors, parent setter derived from source), under-approximate through unresolved calls and mixed regions."),
  "C03": ("region/effect abstract interpretation (receiver purity) over the alignment class family, MRO-table signature parity of the sibling classes, constructor-call completeness for history state, paired-component dependency rule",
-         "Static: none of ~55 listed operations (resolved for ArrayAlignment, Alignment, SequenceCollection, and for Aligned) mutates its receiver; the two alignment classes take the same parameters with the same defaults for every shared public operation; every functional rebuild of SeqsData / IndelMap carries its history state; an Aligned's map and data are always recomputed together; rows of two collections are never paired by position; sibling classes use the same gap vocabulary; both branches of an option give a callee the same kind of value; IndelMap slicing clamps the stop to its length before any arithmetic; map addition merges the seam run; integer indexing is right for -1; the index dispatch of Alignment.__getitem__ is exhaustive; the filtered() predicate is used by truth value. That rows equal the string model is not decided.",
+         "Static: none of ~55 listed operations (resolved for ArrayAlignment, Alignment, SequenceCollection, and for Aligned) mutates its receiver; the two alignment classes take the same parameters with the same defaults for every shared public operation; every functional rebuild of SeqsData / IndelMap carries its history state; an Aligned's map and data are always recomputed together; rows of two collections are never paired by position; sibling classes use the same gap vocabulary; both branches of an option give a callee the same kind of value; IndelMap slicing clamps the stop to its length before any arithmetic; map addition merges the seam run; integer indexing is right for -1; the index dispatch of Alignment.__getitem__ is exhaustive; the filtered() predicate is used by truth value; the construction helpers never modify the rows they are handed. That rows equal the string model is not decided.",
          "Trusts python ast, the numpy/container effect model, the allow-list (_named_seqs memo, _repr_policy), the curated history-state table."),
  "C20": ("dialect-table comparison of delimited writers against the csv reader, region/effect abstract interpretation (receiver purity) of the table operations, MRO resolution of self-calls on write paths",
          "Static: the csv-module writer and the hand-rolled delimited writer both produce what csv.reader(dialect='excel') reads back (quoting set, quote doubling, header treated like rows, same suffix->separator table on both sides); none of 28 listed table operations mutates its receiver; every self.<name>() call on the write paths exists in the class; the delimited reader keeps every record and load_table drops rows only on request; equality-based operations apply no ordering primitive to cell data; derived attributes of Columns are re-stored whenever their sources change; file text is never evaluated; predicates are used by truth value, sorting is stable and descending order is by order inversion; natural-join keys come from one ordering. Relational semantics (sort/join/filter results) are not decided.",
